@@ -22,6 +22,7 @@ _FUNCLIKE = (types.FunctionType, types.BuiltinFunctionType, types.MethodDescript
              types.GetSetDescriptorType, types.MemberDescriptorType, types.ClassMethodDescriptorType)
 
 REPO_PREFIX = "/repo/"
+VERIF_PREFIX = os.path.dirname(os.path.dirname(os.path.abspath(__file__))) + "/"      # checkout-relative, not "/verif/"
 
 _total_ordering_fns = set()
 for _n in dir(functools):
@@ -1070,7 +1071,7 @@ class Ops(object):
                 return _TO_MAP[f](self, args[0], args[1])
             if model is not None:
                 return model(self, *args, **kwargs)
-            if f in self.force_native or getattr(f, "_vc_native", False) or f.__code__.co_filename.startswith("/verif/vc/") \
+            if f in self.force_native or getattr(f, "_vc_native", False) or f.__code__.co_filename.startswith(VERIF_PREFIX + "vc/") \
                     or (not is_repo_function(f) and self.all_concrete(args, kwargs)):
                 self.I.native_calls[f.__qualname__] = self.I.native_calls.get(f.__qualname__, 0) + 1
                 return self.native_call(f, args, kwargs)
@@ -1078,7 +1079,7 @@ class Ops(object):
                     and not self.I.cfg.get("always_interpret", lambda fn: False)(f):
                 self.I.native_calls[f.__qualname__] = self.I.native_calls.get(f.__qualname__, 0) + 1
                 return self.native_call(f, args, kwargs)
-            if not f.__code__.co_filename.startswith(REPO_PREFIX) and not f.__code__.co_filename.startswith("/verif/"):
+            if not f.__code__.co_filename.startswith(REPO_PREFIX) and not f.__code__.co_filename.startswith(VERIF_PREFIX):
                 if f.__module__ and f.__module__.split(".")[0] in ("future", "builtins", "past"):
                     pass      # python-2 compatibility shims: interpret them like repo code
                 else:
